@@ -242,34 +242,50 @@ def shards(tier, seed):
 
 
 def run_workflow_files(spec):
-    """the literal run: body of rule run_grid is executed and every file it writes is compared with the getter of that name"""
+    """the literal run: body of rule run_grid is executed and every file it writes is compared with the getter of that name.
+    Layout as in the workflow: <experiments>/grids/<grid id>/<files>; the same grid specification is run several times in sibling folders
+    with another factor / position mode (an execution must not depend on earlier executions), and grids with tiny borders are included"""
     import shutil
     import tempfile
     from vlib.props import c14
     from molgri.space.fullgrid import FullGrid
     repo = os.environ.get("VERIF_REPO", "/repo")
     rng = random.Random(spec["rseed"])
-    for it in range(spec["count"]):
-        sp = c14.make_spec(rng)
-        d = tempfile.mkdtemp(prefix="verif_c02w_")
-        REC.begin_case({"kind": "workflow run_grid", **sp}, cls="workflow run_grid files")
-        try:
-            paths = {k: os.path.join(d, v) for k, v in dict(full_array="full_array.npy", adjacency_array="adjacency_array.npz",
-                     adjacency_only_position="adjacency_array_position.npz", adjacency_only_orientation="adjacency_array_orientation.npz",
-                     distances_array="distances_array.npz", borders_array="borders_array.npz", volumes="volumes.npy").items()}
-            body = c14.rule_body(os.path.join(repo, "workflow", "run_grid"), "run_grid")
-            g = {"np": np, "sparse": sparse, "FullGrid": FullGrid,
-                 "params": c14.ns(n_points_orientations=sp["b"], n_points_directions=sp["o"], radial_distances_nm=sp["t"],
-                                  factor_orientation_to_position=float(sp["factor"]), position_grid_cartesian=bool(sp["cartesian"])),
-                 "output": c14.ns(**paths)}
-            exec(compile(body, "workflow/run_grid:run_grid", "exec"), g)
-            c14.check_workflow_files(paths, sp["b"], sp["o"], sp["t"], sp["factor"], sp["cartesian"])
-            if sp["n_b"] >= 4:
-                REC.nontrivial_case(("workflow", sp["b"], sp["o"], sp["t"], sp["factor"], sp["cartesian"]))
-        except Exception as e:
-            REC.crashed("C02.call_raised", e)
-        finally:
-            shutil.rmtree(d, ignore_errors=True)
+    parent = tempfile.mkdtemp(prefix="verif_c02w_")
+    gid = 0
+    try:
+        body = c14.rule_body(os.path.join(repo, "workflow", "run_grid"), "run_grid")
+        for it in range(spec["count"]):
+            sp = c14.make_spec(rng)
+            if it == 0:
+                sp.update({"b": "randomQ_20", "o": "ico_12", "t": "[0.2, 0.3]", "factor": 1, "n_b": 20, "cartesian": False})   # rotation faces down to 8e-6
+            if it == 1:
+                sp.update({"factor": 0.001})                                                                               # position borders scaled by 1e-6
+            variants = [(sp["factor"], sp["cartesian"]), (3 if sp["factor"] != 3 else 2, sp["cartesian"])]
+            no = int(sp["o"].split("_")[-1])
+            if no >= 4 and surrounds(sp["o"].split("_")[0], no):
+                variants.append((sp["factor"], not sp["cartesian"]))
+            for f, cart in variants:
+                gid += 1
+                d = os.path.join(parent, "grids", f"grid_{gid}")
+                os.makedirs(d)
+                REC.begin_case({"kind": "workflow run_grid", **sp, "factor": f, "cartesian": cart}, cls="workflow run_grid files")
+                try:
+                    paths = {k: os.path.join(d, v) for k, v in dict(full_array="full_array.npy", adjacency_array="adjacency_array.npz",
+                             adjacency_only_position="adjacency_array_position.npz", adjacency_only_orientation="adjacency_array_orientation.npz",
+                             distances_array="distances_array.npz", borders_array="borders_array.npz", volumes="volumes.npy").items()}
+                    g = {"np": np, "sparse": sparse, "FullGrid": FullGrid,
+                         "params": c14.ns(n_points_orientations=sp["b"], n_points_directions=sp["o"], radial_distances_nm=sp["t"],
+                                          factor_orientation_to_position=float(f), position_grid_cartesian=bool(cart)),
+                         "output": c14.ns(**paths), "input": c14.ns(), "config": {}}
+                    exec(compile(body, "workflow/run_grid:run_grid", "exec"), g)
+                    c14.check_workflow_files(paths, sp["b"], sp["o"], sp["t"], f, cart)
+                    if sp["n_b"] >= 4:
+                        REC.nontrivial_case(("workflow", sp["b"], sp["o"], sp["t"], f, cart))
+                except Exception as e:
+                    REC.crashed("C02.call_raised", e)
+    finally:
+        shutil.rmtree(parent, ignore_errors=True)
 
 
 def run_shard(spec):
